@@ -1,7 +1,7 @@
 CONSTANTS
   MaxLen = 4
   LongLen = 5
-  StartPerms = {0, 420, 511, 2541}
+  StartPerms = {0, 420, 2541}
   StringPerms = {420}
   DoubleGroups <- DoubleGroupsDef
   DoublePerms <- DoublePermsDef
